@@ -133,7 +133,7 @@ impl<const MAXN: usize, const MAXS: usize> Scenario<MAXN, MAXS> {
 			if self.is_hard(j) {
 				ok = false;
 			}
-			if self.is_replace(j) && !(self.retention > 0 && self.now - self.ts[j] > self.retention) {
+			if self.is_replace(j) && !(self.retention > 0 && self.now.saturating_sub(self.ts[j]) > self.retention) {
 				ok = false;
 			}
 			j += 1;
@@ -357,12 +357,7 @@ fn c01_compaction_keeps_every_view_n8_s5() {
 fn history_retained<const MAXN: usize, const MAXS: usize>(maxn: usize, maxs: usize) {
 	let sc = Scenario::<MAXN, MAXS>::any(maxn, maxs, 14);
 	kani::assume(sc.versioning);
-	// timestamps are taken from the clock at commit: never in the future
-	let mut i = 0;
-	while i < MAXN {
-		kani::assume(sc.ts[i] <= sc.now);
-		i += 1;
-	}
+	// explicit timestamps (set_at) may lie ahead of the clock: such a version has age 0
 	let kept = run(&sc);
 	let newest_is_hard_delete_at_bottom = sc.bottom && sc.is_hard(0);
 	let mut any_replace_above = false; // a Replace strictly newer than i, or i itself a non-replace with a replace anywhere
@@ -380,7 +375,7 @@ fn history_retained<const MAXN: usize, const MAXS: usize>(maxn: usize, maxs: usi
 	let mut dropped_by_replace = false;
 	while i < sc.n {
 		if !kept[i] {
-			let expired = sc.retention > 0 && sc.now - sc.ts[i] > sc.retention;
+			let expired = sc.retention > 0 && sc.now.saturating_sub(sc.ts[i]) > sc.retention;
 			// licences the property grants: erased by a hard delete or a replace, or out of the window
 			let under_hard_delete = {
 				let mut u = false;
@@ -420,6 +415,7 @@ fn history_retained<const MAXN: usize, const MAXS: usize>(maxn: usize, maxs: usi
 	kani::cover!(dropped_expired, "a version dropped because it left the retention window");
 	kani::cover!(dropped_by_replace, "a version dropped because a replace erased it");
 	kani::cover!(sc.retention == 0 && sc.n == maxn && kept[sc.n - 1], "unlimited retention keeps the oldest version");
+	kani::cover!(sc.retention > 0 && sc.n >= 2 && sc.ts[1] > sc.now && kept[1], "future-dated version kept (age 0)");
 }
 
 #[kani::proof]
@@ -446,11 +442,6 @@ fn c10_retention_never_loses_live_version_n8_s5() {
 fn barrier_never_outlived<const MAXN: usize, const MAXS: usize>(maxn: usize, maxs: usize) {
 	let sc = Scenario::<MAXN, MAXS>::any(maxn, maxs, 14);
 	kani::assume(sc.versioning);
-	let mut t = 0;
-	while t < MAXN {
-		kani::assume(sc.ts[t] <= sc.now);
-		t += 1;
-	}
 	let kept = run(&sc);
 	let mut resurfaced_candidate = false;
 	let mut i = 1;
@@ -512,7 +503,7 @@ fn c10_witness_f10r_expired_replace_barrier() {
 	let sc = Scenario::<4, 3>::any(3, 1, 14);
 	kani::assume(sc.versioning && sc.n == 3 && sc.ns == 1 && sc.retention > 0);
 	kani::assume(sc.kind[0] == 0 && sc.kind[1] == 3 && sc.kind[2] == 0);
-	kani::assume(sc.ts[0] <= sc.now);
+	kani::assume(sc.ts[0] <= sc.now && sc.ts[1] <= sc.now);
 	kani::assume(sc.now - sc.ts[1] > sc.retention);
 	kani::assume(sc.snaps[0] >= sc.seq[2] && sc.snaps[0] < sc.seq[1]);
 	let kept = run(&sc);
